@@ -1,82 +1,239 @@
 (* Model of StreamManager.Run / connect / resume / Stop (stream_manager.go) together
-   with Client.Connect / Client.Resume (client.go) as a state machine over the outcome
-   of successive connection attempts and the fate of established sessions.
+   with Client.Connect / Client.Resume / Client.recv's end-of-connection paths (client.go)
+   as a state machine over what the network, the server and the application's hooks do.
+
+   The counters that the property ties together -- sessions handed over, PostConnect
+   calls, receivers started, which connection each running receiver reads, retry loops
+   alive -- are moved by SEPARATE decisions of the code.  The places where the code
+   decides (does the reader left behind by a failed attempt report a loss?  does the
+   receiver that reported a stream error touch the transport afterwards?  does a failing
+   PostResumeHook still start a receiver?  does Stop cancel the retry loop?  does Resume
+   start a receiver at all?) are parameters of the step function ([mcode]); [repaired]
+   is the code as it is, the other values are the code as it was before the respective
+   repair.  The theorems hold for [repaired] and are refuted for each other value, so
+   none of them restates the definition of the step function.
    Executable definitions only. *)
-From Coq Require Import List ZArith NArith Bool.
+From Coq Require Import List ZArith NArith Bool Arith.
 From XV Require Import Lib.Sx.
 Import ListNotations.
 
-(* outcome of one connection attempt: what the network and the server do *)
+(* outcome of one connection attempt: what the network, the server and the hook do *)
 Inductive attempt :=
-| ARefused                 (* TCP connection refused / timed out: transient *)
-| AFailTransient           (* negotiation fails with a non-permanent error *)
-| AFailPermanent           (* rejected credentials, TLS policy failure: ConnError.Permanent *)
-| AOk (resumed : bool).    (* session established: resumed or freshly bound *)
+| ARefused                        (* TCP connection refused / timed out: transient; no connection is made *)
+| AFail (permanent drops : bool)  (* a connection is made and the attempt fails on it (also: cut in
+                                     mid-negotiation, stream header that cannot be written).  permanent:
+                                     ConnError.Permanent (rejected credentials, TLS policy failure, refused
+                                     handshake).  drops: NewSession returned no Session object (the early
+                                     failures), the resumption state held by the client is gone with it *)
+| AHookFail (grant : bool)        (* negotiated to the end, then the application's PostResumeHook reports an
+                                     error: Resume closes the session and reports the attempt as failed *)
+| AOk (grant : bool).             (* negotiated to the end.  grant: the server answers <resumed/> IF it is asked
+                                     to resume; whether it is asked is the client's affair ([resumes]) *)
 
 (* fate of an established session *)
 Inductive term :=
 | TDrop          (* abrupt loss: the receiver's read fails, Disconnected event *)
 | TClose         (* </stream:stream> by the server: Disconnected event *)
-| TStreamError   (* <stream:error/> by the server (any condition but conflict), then the stream and the
-                    connection are closed: StreamError event; the manager disconnects and reconnects from
-                    inside the handler, i.e. inside the receiver of the connection that is over *)
+| TStreamError   (* <stream:error/> by the server, whatever the condition, then the stream and the
+                    connection are closed.  StreamError event: the manager disconnects and reconnects from
+                    inside the handler, i.e. inside the receiver of the connection that is over.  With the
+                    condition conflict the handler does not reconnect, but the receiver then closes its own
+                    connection, its next read fails and the Disconnected event makes the manager reconnect:
+                    one retry loop either way *)
 | TStop.         (* StreamManager.Stop *)
 
-(* the terminations of an established connection the manager answers with a reconnection *)
 Definition is_loss (t : term) : bool :=
   match t with TDrop | TClose | TStreamError => true | TStop => false end.
 
-Inductive mev := EAttempt (a : attempt) | ETerm (t : term).
+Inductive mev :=
+| EAttempt (a : attempt)
+| ETerm (t : term)
+| EStaleReader     (* the go routine Client.connect leaves behind after a failed negotiation (it waits for the
+                      server's stream close) meets the end of its connection *)
+| EOldReceiver.    (* the receiver that reported a stream error gets the control back from the event handler,
+                      which has meanwhile replaced the connection *)
 
 Inductive mphase :=
 | MIdle        (* Run called, first connection not made yet *)
-| MUp          (* a session is established; its receiver and keepalive run *)
+| MUp          (* a session is established *)
 | MRetry       (* resume(): retry loop with back-off *)
 | MDead        (* retry loop ended by a permanent error; Run keeps waiting for Stop *)
 | MReturned.   (* Run has returned *)
 
+(* the decisions of the code *)
+Record mcode := {
+  v_stale_reports : bool;     (* the reader of a failed attempt emits Disconnected (before cccf687) *)
+  v_old_recv_acts : bool;     (* after a stream error the old receiver calls Disconnect and reads on (before 1d0dfdb) *)
+  v_hook_fail_starts : bool;  (* a Resume whose hook failed still starts receiver and keepalive (before 383f5a3) *)
+  v_stop_leaves_loop : bool;  (* Stop does not tell the retry loop (before the repair of audit item A1/c1) *)
+  v_resume_no_recv : bool }.  (* Resume starts no receiver (before 51fc33e) *)
+
+Definition repaired : mcode :=
+  {| v_stale_reports := false; v_old_recv_acts := false; v_hook_fail_starts := false;
+     v_stop_leaves_loop := false; v_resume_no_recv := false |}.
+
 Record mst := {
   m_phase : mphase;
-  m_sessions : nat;       (* sessions established so far *)
+  m_sm : bool;            (* Config.StreamManagementEnable, and the server offers it (constant) *)
+  m_held : bool;          (* the client holds a resumable stream-management state (SMState.Id) *)
+  m_loops : nat;          (* executions of resume() that are alive *)
+  m_conns : nat;          (* connections made so far; the current one is number m_conns *)
+  m_estab : nat;          (* negotiations completed (sessions the server has seen established) *)
+  m_sessions : nat;       (* sessions handed over: Connect / Resume returned nil *)
   m_resumed : nat;        (* of which resumed *)
   m_post : nat;           (* PostConnect invocations *)
-  m_recv : nat;           (* receiver loops started (Connect and Resume each start one) *)
-  m_failed : nat }.       (* failed attempts waited out with back-off *)
+  m_recv : nat;           (* receivers started *)
+  m_live : list nat;      (* for each receiver that is running: the connection it reads *)
+  m_failed : nat;         (* failed attempts waited out with back-off *)
+  m_selfclosed : nat;     (* established sessions the client itself ended without being told to *)
+  m_late : nat }.         (* sessions created after Run had returned *)
 
-Definition m_init : mst :=
-  {| m_phase := MIdle; m_sessions := 0; m_resumed := 0; m_post := 0; m_recv := 0; m_failed := 0 |}.
+Definition m_init (sm : bool) : mst :=
+  {| m_phase := MIdle; m_sm := sm; m_held := false; m_loops := 0; m_conns := 0; m_estab := 0;
+     m_sessions := 0; m_resumed := 0; m_post := 0; m_recv := 0; m_live := []; m_failed := 0;
+     m_selfclosed := 0; m_late := 0 |}.
 
-Definition up (s : mst) (resumed : bool) : mst :=
-  {| m_phase := MUp; m_sessions := S (m_sessions s);
-     m_resumed := (if resumed then S (m_resumed s) else m_resumed s);
-     m_post := S (m_post s); m_recv := S (m_recv s); m_failed := m_failed s |}.
-Definition phase (s : mst) (p : mphase) : mst :=
-  {| m_phase := p; m_sessions := m_sessions s; m_resumed := m_resumed s; m_post := m_post s;
-     m_recv := m_recv s; m_failed := m_failed s |}.
-Definition failed (s : mst) : mst :=
-  {| m_phase := m_phase s; m_sessions := m_sessions s; m_resumed := m_resumed s; m_post := m_post s;
-     m_recv := m_recv s; m_failed := S (m_failed s) |}.
+Definition set_phase (s : mst) (p : mphase) : mst :=
+  {| m_phase := p; m_sm := m_sm s; m_held := m_held s; m_loops := m_loops s; m_conns := m_conns s;
+     m_estab := m_estab s; m_sessions := m_sessions s; m_resumed := m_resumed s; m_post := m_post s;
+     m_recv := m_recv s; m_live := m_live s; m_failed := m_failed s; m_selfclosed := m_selfclosed s;
+     m_late := m_late s |}.
+Definition set_loops (s : mst) (n : nat) : mst :=
+  {| m_phase := m_phase s; m_sm := m_sm s; m_held := m_held s; m_loops := n; m_conns := m_conns s;
+     m_estab := m_estab s; m_sessions := m_sessions s; m_resumed := m_resumed s; m_post := m_post s;
+     m_recv := m_recv s; m_live := m_live s; m_failed := m_failed s; m_selfclosed := m_selfclosed s;
+     m_late := m_late s |}.
+Definition set_live (s : mst) (l : list nat) : mst :=
+  {| m_phase := m_phase s; m_sm := m_sm s; m_held := m_held s; m_loops := m_loops s; m_conns := m_conns s;
+     m_estab := m_estab s; m_sessions := m_sessions s; m_resumed := m_resumed s; m_post := m_post s;
+     m_recv := m_recv s; m_live := l; m_failed := m_failed s; m_selfclosed := m_selfclosed s;
+     m_late := m_late s |}.
 
-Definition m_step (s : mst) (e : mev) : mst :=
-  match m_phase s, e with
-  (* Run -> connect(): any failure of the first connection makes Run return the error *)
-  | MIdle, EAttempt (AOk r) => up s r
-  | MIdle, EAttempt _ => phase s MReturned
-  (* established: a loss (Disconnected event, or StreamError event) enters resume() -- once: the
-     receiver that reported a stream error ends when the handler has replaced its connection, it neither
-     closes the transport again nor reads on (both would hit the NEW session); Stop makes Run return *)
-  | MUp, ETerm TDrop | MUp, ETerm TClose | MUp, ETerm TStreamError => phase s MRetry
-  | MUp, ETerm TStop => phase s MReturned
-  (* resume(): loop until success or a permanent error *)
-  | MRetry, EAttempt (AOk r) => up s r
-  | MRetry, EAttempt AFailPermanent => phase s MDead
-  | MRetry, EAttempt _ => failed s
-  (* Stop also ends a dead or retrying manager's Run *)
-  | MDead, ETerm TStop => phase s MReturned
-  | _, _ => s
+(* resumed when possible: the client asks when it has stream management and holds a state,
+   and the session is resumed when the server then grants it; freshly bound otherwise *)
+Definition resumes (s : mst) (grant : bool) : bool := m_sm s && m_held s && grant.
+
+(* a failed attempt that is waited out; conn: a connection was made; est: the negotiation completed *)
+Definition failed (s : mst) (conn est : bool) (held : bool) (recv : bool) : mst :=
+  {| m_phase := m_phase s; m_sm := m_sm s; m_held := held; m_loops := m_loops s;
+     m_conns := (if conn then S (m_conns s) else m_conns s);
+     m_estab := (if est then S (m_estab s) else m_estab s);
+     m_sessions := m_sessions s; m_resumed := m_resumed s; m_post := m_post s;
+     m_recv := (if recv then S (m_recv s) else m_recv s);
+     m_live := (if recv then S (m_conns s) :: m_live s else m_live s);
+     m_failed := S (m_failed s); m_selfclosed := m_selfclosed s; m_late := m_late s |}.
+
+(* a successful attempt: the session is handed over, PostConnect runs, a receiver is
+   started on the new connection (recv: unless the code forgets) *)
+Definition up (s : mst) (grant : bool) (recv : bool) (loops : nat) : mst :=
+  {| m_phase := (match m_phase s with MReturned => MReturned | _ => MUp end);
+     m_sm := m_sm s; m_held := m_sm s; m_loops := loops;
+     m_conns := S (m_conns s); m_estab := S (m_estab s); m_sessions := S (m_sessions s);
+     m_resumed := (if resumes s grant then S (m_resumed s) else m_resumed s);
+     m_post := S (m_post s);
+     m_recv := (if recv then S (m_recv s) else m_recv s);
+     m_live := (if recv then S (m_conns s) :: m_live s else m_live s);
+     m_failed := m_failed s; m_selfclosed := m_selfclosed s;
+     m_late := (match m_phase s with MReturned => S (m_late s) | _ => m_late s end) |}.
+
+(* Run -> connect(): any failure of the first connection makes Run return the error *)
+Definition first_attempt (s : mst) (a : attempt) : mst :=
+  match a with
+  | AOk g => up s g true 0
+  | ARefused => set_phase s MReturned
+  | AFail _ _ => set_phase (failed s true false (m_held s) false) MReturned
+  | AHookFail _ => set_phase (failed s true true (m_sm s) false) MReturned
   end.
 
-Definition m_run (s : mst) (es : list mev) : mst := fold_left m_step es s.
+(* one turn of a retry loop that is alive *)
+Definition loop_attempt (v : mcode) (s : mst) (a : attempt) : mst :=
+  match a with
+  | ARefused => failed s false false (m_held s) false
+  | AFail false drops => failed s true false (if drops then false else m_held s) false
+  | AFail true drops =>
+      (* the loop ends; when it was the only one, nothing will reconnect any more *)
+      let s1 := failed s true false (if drops then false else m_held s) false in
+      let s2 := set_loops s1 (pred (m_loops s)) in
+      match m_phase s, m_loops s with
+      | MRetry, 1 => set_phase s2 MDead
+      | _, _ => s2
+      end
+  | AHookFail g => failed s true true (m_sm s) (v_hook_fail_starts v)
+  | AOk g => up s g (negb (v_resume_no_recv v)) (pred (m_loops s))
+  end.
 
-Definition is_fail (a : attempt) : bool :=
-  match a with ARefused | AFailTransient => true | _ => false end.
+Definition handler_set (s : mst) : bool :=
+  match m_phase s with MUp | MRetry | MDead => true | _ => false end.
+
+Definition m_step (v : mcode) (s : mst) (e : mev) : mst :=
+  match e with
+  | EAttempt a =>
+      match m_phase s with
+      | MIdle => first_attempt s a
+      | _ => match m_loops s with
+             | 0 => s                       (* nobody is dialling *)
+             | S _ => loop_attempt v s a
+             end
+      end
+  | ETerm TStop =>
+      (* SetHandler(nil), Disconnect, Run returns -- in every phase; the retry loop is told to end *)
+      set_live (set_loops (set_phase s MReturned) (if v_stop_leaves_loop v then m_loops s else 0)) []
+  | ETerm _ =>
+      (* a loss is something that happens to an established session: every receiver that reads it reports
+         it, each report starts a resume() *)
+      match m_phase s with
+      | MUp => set_live (set_loops (set_phase s MRetry) (m_loops s + length (m_live s))) []
+      | _ => s
+      end
+  | EStaleReader =>
+      if v_stale_reports v && handler_set s then set_loops s (S (m_loops s)) else s
+  | EOldReceiver =>
+      if v_old_recv_acts v then
+        match m_phase s with
+        | MUp =>
+            (* Disconnect() on the transport, which holds the NEW connection; then both receivers meet its end *)
+            let s1 := set_live (set_loops (set_phase s MRetry) (m_loops s + S (length (m_live s)))) [] in
+            {| m_phase := m_phase s1; m_sm := m_sm s1; m_held := m_held s1; m_loops := m_loops s1;
+               m_conns := m_conns s1; m_estab := m_estab s1; m_sessions := m_sessions s1;
+               m_resumed := m_resumed s1; m_post := m_post s1; m_recv := m_recv s1; m_live := m_live s1;
+               m_failed := m_failed s1; m_selfclosed := S (m_selfclosed s1); m_late := m_late s1 |}
+        | _ => s
+        end
+      else s
+  end.
+
+Definition m_run (v : mcode) (s : mst) (es : list mev) : mst := fold_left (m_step v) es s.
+
+(* what may happen between a loss and the successful attempt without producing a session *)
+Definition is_noise (e : mev) : bool :=
+  match e with
+  | EAttempt ARefused | EAttempt (AFail false _) | EAttempt (AHookFail _) => true
+  | EAttempt _ => false
+  | ETerm TStop => false
+  | ETerm _ => true          (* there is no session a loss could happen to *)
+  | EStaleReader | EOldReceiver => true
+  end.
+
+(* the resumption state after such events *)
+Fixpoint held_after (sm held : bool) (es : list mev) : bool :=
+  match es with
+  | [] => held
+  | EAttempt (AFail _ true) :: r => held_after sm false r
+  | EAttempt (AHookFail _) :: r => held_after sm sm r
+  | _ :: r => held_after sm held r
+  end.
+
+(* one round: a loss, noise, a successful attempt *)
+Definition round := (term * list mev * bool)%type.
+Definition round_ok (r : round) : bool :=
+  let '(t, noise, _) := r in is_loss t && forallb is_noise noise.
+Definition round_events (r : round) : list mev :=
+  let '(t, noise, g) := r in ETerm t :: noise ++ [EAttempt (AOk g)].
+
+(* A connection on which the client's own stream header cannot be written (reset as soon as
+   it was accepted, or cut after <success/> when the stream is restarted) is an abrupt drop
+   like any other: a failed attempt that is waited out; the Session object is not touched
+   (Transport.Connect fails before NewSession runs). *)
+Definition header_write_failure : attempt := AFail false false.
+Definition attempt_permanent (a : attempt) : bool :=
+  match a with AFail p _ => p | _ => false end.
